@@ -82,7 +82,9 @@ def judge(case, col):
     verbatim = (d, sql) in _CORPUS_TEXTS
     key = (d, ' '.join(types))
     out = []
-    classes = ['origin:' + case.get('origin', '?'), 'dialect:' + d]
+    classes = ['origin:' + case.get('origin', '?').replace(':multiline', '').replace(':twolines', ''), 'dialect:' + d]
+    if '\n' in sql:
+        classes.append('multiline')
     if accepted:
         classes.append('accepted')
         if not sentence:
@@ -144,7 +146,18 @@ def cases(draw):
     else:
         d2 = draw(st.sampled_from([x for x in corpus.DIALECTS if x != d]))
         toks = draw(st.sampled_from(_TOK[d2]))
-    sql = ' '.join(toks)
+    lay = draw(st.integers(0, 3))
+    if lay == 0:
+        # multi-line layout: error recovery may behave differently once tokens sit on different lines
+        sql = draw(mutate.layout(toks))
+        origin += ':multiline'
+    elif lay == 1 and mode in ('resync', 'mutate'):
+        # line breaks exactly at statement-ish boundaries
+        cut = draw(st.integers(0, len(toks)))
+        sql = ' '.join(toks[:cut]) + draw(st.sampled_from(['\n', '\n;\n', ' \n ', '\n\n'])) + ' '.join(toks[cut:])
+        origin += ':twolines'
+    else:
+        sql = ' '.join(toks)
     if draw(st.integers(0, 5)) == 0:
         sql = sql + draw(st.sampled_from([';', ' ;', ';;', ' ; ', '\n;\n']))
     return {'dialect': d, 'sql': sql, 'origin': origin}
